@@ -141,6 +141,7 @@ func runSeq(c *Case, relevantOf map[int]bool) (string, bool) {
 		m.VerifSetRequestTimeout(epochTimeout)
 	}
 	burst := time.Now()
+	cutoff := time.Now()
 	for _, op := range c.Ops {
 		timeout := "1%Z" // epoch mode: one epoch
 		if c.Mode == "hook" {
@@ -154,6 +155,15 @@ func runSeq(c *Case, relevantOf map[int]bool) (string, bool) {
 			}
 		}
 		switch op.K {
+		case "mark": // remember the time: the cutoff of a later clean-up
+			time.Sleep(2 * time.Millisecond)
+			cutoff = time.Now()
+			time.Sleep(2 * time.Millisecond)
+		case "clean":
+			// the periodic clean-up with the remembered cutoff.  The scenario has every entry
+			// active (requested or delivered) after the cutoff, so nothing may be forgotten: the
+			// model has no operation for it
+			m.Clean(ctx, cutoff)
 		case "sleep":
 			if c.Mode == "epoch" {
 				if time.Since(burst) > epochTimeout/2 {
@@ -412,6 +422,25 @@ func main() {
 			}
 			if i%5 == 4 {
 				mode = "concurrent"
+			}
+			if i%25 == 11 { // a delivery in flight across the clean-up's cutoff
+				rr := r.Fork(uint64(i))
+				cc := Case{ID: i, Mode: "hook"}
+				nt := 1 + rr.Intn(3)
+				for t := 0; t < nt; t++ { // announced by A (granted) and by B (remembered)
+					cc.Ops = append(cc.Ops, Op{K: "id", Node: 0, Tx: t, Max: 100}, Op{K: "id", Node: 1, Tx: t, Max: 100})
+				}
+				cc.Ops = append(cc.Ops, Op{K: "mark"})
+				for t := 0; t < nt; t++ { // every transaction is delivered after the cutoff
+					cc.Ops = append(cc.Ops, Op{K: "tx", Node: rr.Intn(2), Tx: t, Max: 100})
+				}
+				cc.Ops = append(cc.Ops, Op{K: "clean"})
+				for t := 0; t < nt; t++ { // a third peer announces and delivers; the second one polls
+					cc.Ops = append(cc.Ops, Op{K: "id", Node: 2, Tx: t, Expired: true, Max: 100}, Op{K: "get", Node: 1, Expired: true, Max: 100},
+						Op{K: "tx", Node: 2, Tx: t, Max: 100})
+				}
+				cases = append(cases, cc)
+				continue
 			}
 			if i%50 == 7 { // a few stress cases: (peers, transactions) in the first op
 				rr := r.Fork(uint64(i))
